@@ -59,6 +59,8 @@ struct World {
     script: RefCell<Vec<(usize, Vec<String>)>>,
     /// pending extra script (container operations, nested searches/loops, comparisons, sizeof) run from inside the next loop/search
     xscript: RefCell<Vec<(usize, Vec<String>)>>,
+    /// number of edge loops run so far in this case (selects the iterator consumer)
+    loops: Cell<usize>,
 }
 
 
@@ -673,7 +675,7 @@ fn exec_any(w: &World, st: &[String]) -> String {
 }
 
 pub fn run_case(case: &Case, sink: &mut dyn FnMut(usize, String)) {
-    let w = World { nodes: RefCell::new(Vec::new()), graphs: RefCell::new(Vec::new()), threads: RefCell::new(Vec::new()), script: RefCell::new(Vec::new()), xscript: RefCell::new(Vec::new()) };
+    let w = World { nodes: RefCell::new(Vec::new()), graphs: RefCell::new(Vec::new()), threads: RefCell::new(Vec::new()), script: RefCell::new(Vec::new()), xscript: RefCell::new(Vec::new()), loops: Cell::new(0) };
     for (si, st) in case.steps.iter().enumerate() {
         // `only:<flavour>` restricts a step to one flavour (API not common to the twins)
         let mut st: &[String] = st;
@@ -705,14 +707,60 @@ fn qry(n: &N, k: u64) -> String {
     format!("q conn={} fa={}", n.is_connected(&k) as u8, okey(n.find_adjacent(&k)))
 }
 
+
+/// drive an edge iterator to its end through one of several consumers of the Iterator protocol (a `for` loop,
+/// map+collect, extend into a vector at capacity, explicit next() with size_hint() queries, chain+fold): all of them
+/// must hand out the same edges; the choice is a pure function of the step text and of how many loops ran before
+macro_rules! consume_edges {
+    ($it:expr, $cbs:expr, $variant:expr) => {{
+        let mut it = $it;
+        match $variant {
+            0 => {
+                for e in it {
+                    $cbs.on_edge(&e);
+                }
+            }
+            1 => {
+                let v: Vec<Ed> = it.map(|e| { $cbs.on_edge(&e); e }).collect();
+                drop(v);
+            }
+            2 => {
+                let mut v: Vec<Ed> = Vec::with_capacity(1);
+                v.extend(it.map(|e| { $cbs.on_edge(&e); e }));
+                drop(v);
+            }
+            3 => loop {
+                let (lo, hi) = it.size_hint();
+                if let Some(h) = hi {
+                    assert!(lo <= h, "size_hint lower bound above the upper bound");
+                }
+                match it.next() {
+                    Some(e) => {
+                        $cbs.on_edge(&e);
+                    }
+                    None => break,
+                }
+            },
+            _ => {
+                let first = it.next();
+                if let Some(e) = first {
+                    $cbs.on_edge(&e);
+                    let rest: Vec<Ed> = std::iter::empty::<Ed>().chain(it).map(|e| { $cbs.on_edge(&e); e }).collect();
+                    drop(rest);
+                }
+            }
+        }
+    }};
+}
 fn run_loop(w: &World, st: &[String]) -> String {
     let u = w.nodes.borrow()[pusize(&st[2])].clone();
     let cbs = CbState::new(w, Pred::All);
+    let nth = w.loops.get();
+    w.loops.set(nth + 1);
+    let variant = (st.iter().map(|t| t.bytes().map(|b| b as usize).sum::<usize>()).sum::<usize>() + nth) % 5;
     match st[1].as_str() {
         "adj" => {
-            for e in u.iter() {
-                cbs.on_edge(&e);
-            }
+            consume_edges!(u.iter(), cbs, variant);
         }
         _ => {
             for e in &u {
